@@ -38,7 +38,7 @@ func init() {
 		"add": 6, "remove": 5, "addmany": 10, "addrange": 8, "removerange": 6, "flip": 5, "clear": 1,
 		"runopt": 4, "clone": 4, "detach": 1, "setcow": 3,
 		"binop": 6, "ibinop": 6, "card": 2, "flipstatic": 2, "addoffset": 2, "agg": 3, "andany": 1, "gc": 1,
-		"thresh": 4, "pair": 3, "cowclone": 2, "parlist": 0, "erode": 1, "zcpair": 0, "wide": 1, "tinysubset": 1, "gap": 3, "reuse": 0, "reuse64": 0, "capflip": 1, "par64": 0, "offedge": 1, "offedge2": 0, "offedge3": 0,
+		"thresh": 4, "pair": 3, "cowclone": 2, "parlist": 0, "erode": 1, "zcpair": 0, "wide": 1, "tinysubset": 1, "gap": 3, "reuse": 0, "reuse64": 0, "capflip": 1, "par64": 0, "offedge": 1, "offedge2": 0, "offedge3": 0, "magic64": 0, "cow64": 0, "shrinkcow": 1, "breakeven": 2,
 	}
 	with := func(over map[string]int) *profile {
 		m := map[string]int{}
@@ -50,7 +50,7 @@ func init() {
 		}
 		return mkProfile(m)
 	}
-	io := map[string]int{"rt": 0, "wfault": 0, "trunc": 0, "rfault": 0, "corrupt": 0, "mustread": 0, "freeze": 0, "unmap": 0, "dense": 0, "cur-open": 0, "cur-step": 0, "iterfn": 0}
+	io := map[string]int{"rt": 0, "wfault": 0, "trunc": 0, "rfault": 0, "corrupt": 0, "mustread": 0, "freeze": 0, "unmap": 0, "dense": 0, "densesize": 0, "cur-open": 0, "cur-step": 0, "iterfn": 0}
 	for k, v := range io {
 		base[k] = v
 	}
@@ -77,8 +77,8 @@ func init() {
 		// their goroutines are C12's; wrong answers are C19/C20's and counted as foreign here)
 		"bsinew64": 2, "bsifill64": 6, "bsiset64": 3, "bsiclear64": 3, "bsiparor64": 3, "bsicopy64": 3, "bsicmp64": 6, "bsibatch64": 3, "bsiminmax64": 3, "bsisum64": 3, "bsitrans64": 3,
 		"bsinew32": 2, "bsifill32": 6, "bsiset32": 3, "bsiclear32": 3, "bsiparor32": 3, "bsicopy32": 3, "bsicmp32": 6, "bsibatch32": 3, "bsiminmax32": 3, "bsisum32": 3, "bsitrans32": 3})
-	profiles["C17"] = only(map[string]int{"add64": 10, "remove64": 9, "addmany64": 10, "addrange64": 10, "removerange64": 10, "flip64": 8, "maint64": 8, "binop64": 16, "flipstatic64": 6, "agg64": 6, "query64": 8, "from32": 1, "addmany": 1, "gc": 1})
-	profiles["C18"] = only(map[string]int{"reuse64": 8, "add64": 6, "remove64": 4, "addmany64": 10, "addrange64": 8, "removerange64": 6, "flip64": 4, "maint64": 6, "binop64": 6, "rt64": 25, "trunc64": 6, "wfault64": 5, "corrupt64": 20})
+	profiles["C17"] = only(map[string]int{"cow64": 4, "add64": 10, "remove64": 9, "addmany64": 10, "addrange64": 10, "removerange64": 10, "flip64": 8, "maint64": 8, "binop64": 16, "flipstatic64": 6, "agg64": 6, "query64": 8, "from32": 1, "addmany": 1, "gc": 1})
+	profiles["C18"] = only(map[string]int{"reuse64": 8, "magic64": 1, "add64": 6, "remove64": 4, "addmany64": 10, "addrange64": 8, "removerange64": 6, "flip64": 4, "maint64": 6, "binop64": 6, "rt64": 25, "trunc64": 6, "wfault64": 5, "corrupt64": 20})
 	profiles["C19"] = only(map[string]int{"bsinew64": 4, "bsiset64": 14, "bsifill64": 12, "bsisetmany64": 8, "bsiclear64": 6, "bsiretain64": 4, "bsiparor64": 8, "bsiinc64": 6, "bsiadd64": 6, "bsicopy64": 14, "bsiopt64": 2,
 		"bsinew32": 4, "bsiset32": 12, "bsifill32": 10, "bsisetmany32": 7, "bsiclear32": 6, "bsiparor32": 8, "bsiinc32": 6, "bsiadd32": 6, "bsicopy32": 10, "bsiopt32": 2, "bsicmp64": 2, "bsicmp32": 2, "bsisum64": 1, "bsisum32": 1})
 	profiles["C20"] = only(map[string]int{"bsinew64": 3, "bsiset64": 8, "bsifill64": 12, "bsisetmany64": 6, "bsiclear64": 2, "bsiparor64": 1, "bsiinc64": 2, "bsicopy64": 2, "bsiopt64": 2,
@@ -86,18 +86,18 @@ func init() {
 		"bsicmp64": 22, "bsicmpbsi64": 6, "bsibatch64": 12, "bsiminmax64": 7, "bsisum64": 5, "bsitrans64": 8,
 		"bsicmp32": 18, "bsibatch32": 9, "bsiminmax32": 7, "bsisum32": 4, "bsitrans32": 7, "bsiscan32": 1})
 	profiles["C04"] = with(map[string]int{"cur-open": 14, "cur-step": 45, "iterfn": 14, "runopt": 6, "binop": 2, "ibinop": 2, "agg": 0, "andany": 0, "flipstatic": 0, "addoffset": 0})
-	profiles["C05"] = with(map[string]int{"reuse": 8, "wide": 3, "rt": 30, "wfault": 8, "runopt": 8, "agg": 1, "unmap": 2})
+	profiles["C05"] = with(map[string]int{"reuse": 8, "wide": 3, "rt": 30, "wfault": 8, "mustread": 3, "runopt": 8, "agg": 1, "unmap": 2})
 	profiles["C10"] = with(map[string]int{"reuse": 2, "trunc": 10, "corrupt": 45, "rfault": 4, "mustread": 5, "rt": 3, "runopt": 8, "unmap": 1})
-	profiles["C13"] = with(map[string]int{"wide": 4, "freeze": 30, "runopt": 8, "unmap": 3, "gc": 6})
+	profiles["C13"] = with(map[string]int{"wide": 4, "freeze": 30, "detach": 8, "add": 6, "addmany": 6, "runopt": 8, "unmap": 3, "gc": 6})
 	profiles["C08"] = with(map[string]int{"rt": 14, "freeze": 10, "unmap": 8, "detach": 6, "gc": 5, "dense": 3, "clone": 8, "binop": 10, "ibinop": 10, "agg": 5, "setcow": 1,
 		"zcpair": 8, "pair": 2, "thresh": 2,
 		"rt64": 4, "addmany64": 3, "add64": 3, "remove64": 2, "addrange64": 2, "removerange64": 2, "flip64": 1, "binop64": 4, "maint64": 2})
 	profiles["C01"] = with(map[string]int{"binop": 20, "ibinop": 20, "card": 8, "runopt": 6, "pair": 16})
-	profiles["C02"] = with(map[string]int{"add": 12, "remove": 10, "addmany": 14, "addrange": 14, "removerange": 12, "flip": 10, "binop": 2, "ibinop": 2, "agg": 1, "thresh": 10, "clone": 6, "setcow": 5})
-	profiles["C07"] = with(map[string]int{"add64": 4, "remove64": 3, "addmany64": 5, "addrange64": 4, "removerange64": 3, "flip64": 2, "maint64": 10, "binop64": 14, "flipstatic64": 3, "agg64": 5, "from32": 1,
+	profiles["C02"] = with(map[string]int{"shrinkcow": 3, "add": 12, "remove": 10, "addmany": 14, "addrange": 14, "removerange": 12, "flip": 10, "binop": 2, "ibinop": 2, "agg": 1, "thresh": 10, "clone": 6, "setcow": 5})
+	profiles["C07"] = with(map[string]int{"cow64": 6, "shrinkcow": 3, "add64": 4, "remove64": 3, "addmany64": 5, "addrange64": 4, "removerange64": 3, "flip64": 2, "maint64": 10, "binop64": 14, "flipstatic64": 3, "agg64": 5, "from32": 1,
 		"parlist": 3, "cowclone": 8, "clone": 8, "setcow": 8, "binop": 10, "ibinop": 10, "agg": 10, "flipstatic": 4, "addoffset": 4, "andany": 3})
-	profiles["C09"] = with(map[string]int{"capflip": 5, "parlist": 6, "offedge": 6, "gap": 10, "tinysubset": 5, "erode": 4, "thresh": 8, "pair": 12, "runopt": 8, "agg": 8, "andany": 5, "addoffset": 6, "flipstatic": 5, "removerange": 10, "flip": 8})
+	profiles["C09"] = with(map[string]int{"capflip": 5, "parlist": 6, "offedge": 6, "breakeven": 10, "gap": 10, "tinysubset": 5, "erode": 4, "thresh": 8, "pair": 12, "runopt": 8, "agg": 8, "andany": 5, "addoffset": 6, "flipstatic": 5, "removerange": 10, "flip": 8})
 	profiles["C14"] = profiles["C09"]
 	profiles["C11"] = with(map[string]int{"tinysubset": 6, "agg": 25, "andany": 8, "runopt": 5, "parlist": 6, "cowclone": 4})
-	profiles["C16"] = with(map[string]int{"flipstatic": 15, "addoffset": 20, "offedge": 4, "runopt": 6, "dense": 14, "unmap": 2})
+	profiles["C16"] = with(map[string]int{"flipstatic": 15, "addoffset": 20, "offedge": 4, "densesize": 6, "runopt": 6, "dense": 14, "unmap": 2})
 }
